@@ -117,3 +117,5 @@ INFO = dict(
     outside=["contexts beyond the bound", "grammars outside the catalogue's sub-shape lattices", "hash seeds beyond the sampled ones"],
     assumptions=["weights are reals; present iff > 0"],
 )
+
+INFO["technique"] = 'solver-driven symbolic execution of BoolCFGLM over symbolic rule weights (z3 decides the sign tests / sub-grammar paths); masks compared with an independent Boolean viable-prefix fixed point; bounded'
